@@ -73,7 +73,7 @@ def build_schema(rng, fmt, redundant, neutral=True):
             t, v = E.gen_valid(rng, depth if depth is not None else rng.randint(1, 5), names, lo, hi, **kw)
             if isar and _has_div(t):
                 continue
-            if isar and neutral and (E.python_precedence_value(t) != v or E.max_intermediate(t) >= (1 << 31)):
+            if isar and neutral and (E.host_value_32bit(t) != v or E.max_intermediate(t) >= (1 << 31)):
                 continue
             return t, v, E.render(t, rng, redundant)
         t = E.Lit(lo or 1, 10)
@@ -201,7 +201,7 @@ def run_shard(spec):
         for round_ in range(6):
             neutral = round_ != 5
             sch, items = build_schema(rng, fmt, spec['redundant'], neutral)
-            sensitive = fmt == 'isar' and any(E.python_precedence_value(i['tree']) != i['value'] or
+            sensitive = fmt == 'isar' and any(E.host_value_32bit(i['tree']) != i['value'] or
                                               E.max_intermediate(i['tree']) >= (1 << 31) for i in items)
             d = os.path.join(wd, 'r%d' % round_)
             pkg = 'c14p%d_%d' % (os.getpid(), round_)
